@@ -102,14 +102,15 @@ def letters(dimname):
 # ------------------------------------------------------------------------------------------------
 # construction of the real behaviours
 # ------------------------------------------------------------------------------------------------
-def build_behavior(cfg, solver="auto", unit=1.0):
+def build_behavior(cfg, solver="auto", unit=1.0, E=None, v=None):
     """Returns the real Behavior of a factor configuration (raises what the constructor raises).
-    unit: every stress-like constant is multiplied by it (the same material written in another unit of stress)."""
+    unit: every stress-like constant is multiplied by it (the same material written in another unit of stress).
+    E, v: other elastic constants than the module's (kind relaw)."""
     from EasyFEA import Models
     from EasyFEA.Models.Elastic._laws import Isotropic
 
     I = Models.InElastic
-    el = Isotropic(3, E=E_MOD * unit, v=NU)
+    el = Isotropic(3, E=(E_MOD if E is None else E) * unit, v=NU if v is None else v)
     y = YIELDS[cfg["yield"]]
     ys = None if y is None else getattr(I.Yield, y[0])(SIGMA_Y * unit, **y[1])
     h = HARDENINGS[cfg["hardening"]]
@@ -974,6 +975,11 @@ def cases(tier, seed):
     for c in unit_cfgs:
         if accepted(c):
             out.append({"kind": "units", **c})
+    # the elastic law of a live behaviour changed through its setters: same steps as a behaviour constructed with the new law
+    for c in unit_cfgs + [dict(_DEFAULT_MP, **d) for d in ({"yield": "none", "hardening": "none"}, {"branches": "two", "kinematic": "Prager"}, {"dim": "PlaneStress", "rate": "Norton"})]:
+        if accepted(c):
+            for solver in ("auto", "newton"):
+                out.append({"kind": "relaw", **c, "solver": solver})
     return out
 
 
@@ -1164,7 +1170,63 @@ def run_units(case):
     return {"violations": _dedupe(v), "fingerprint": fp("units", cfg, *obs), "nontrivial": flowed or not lay.n, "transitions": ntr, "outcome": "ok" if not v else "violation"}
 
 
+def run_relaw(case):
+    """The elastic law held by a live behaviour is changed through its public setters (after the behaviour has been used once): every later
+    step equals the step of a behaviour constructed with the new law."""
+    cfg = {k: case[k] for k in FACTORS}
+    lay = Layout(cfg)
+    E2, v2 = 1.6 * E_MOD, 0.2
+    solver = case["solver"]
+    behA, behB = build_behavior(cfg, solver), build_behavior(cfg, solver, E=E2, v=v2)
+    L, lnames = letters(cfg["dim"])
+    n = L.shape[1]
+    stats = new_stats()
+    dt = time_step(cfg)
+    v, obs, ntr = [], [], 0
+    # first use with the law of the constructor (fills whatever the behaviour keeps), then the change on the live object
+    integrate(behA, L[:4].copy(), np.zeros((4, lay.n)), dt, stats)
+    behA.elastic.E = E2
+    behA.elastic.v = v2
+    f_eps, f_z, f_names = np.zeros((1, n)), np.zeros((1, lay.n)), [[]]
+    flowed = False
+    for depth in (1, 2):
+        eps = (f_eps[:, None, :] + L[None]).reshape(-1, n)
+        zold = np.repeat(f_z, len(L), axis=0)
+        names = [p + [x] for p in f_names for x in lnames]
+        sA, CA, zA, okA, rA, _ = integrate(behA, eps, zold, dt, stats)
+        sB, CB, zB, okB, rB, _ = integrate(behB, eps, zold, dt, stats)
+        ntr += 2 * len(eps)
+        both = okA & ~rA & okB & ~rB
+        gi = np.nonzero(both)[0]
+        if not len(gi):
+            break
+        flowed = flowed or bool(lay.n and np.abs(zB[gi] - zold[gi]).max() > 0)
+        sc = np.maximum(np.abs(sB[gi]).max(axis=1), SIGMA_Y)
+        es = np.abs(sB[gi] - sA[gi]).max(axis=1) / sc
+        ez = (np.abs(zB[gi] - zA[gi]).max(axis=1) / np.maximum(np.abs(zB[gi]).max(axis=1), EPS_Y)) if lay.n else np.zeros(len(gi))
+        ec = np.abs(CB[gi] - CA[gi]).reshape(len(gi), -1).max(axis=1) / E2
+        obs.append(np.round(sB[gi] / SIGMA_Y, 6))
+        for nm, e, tol in (("stress", es, 1e-9), ("state", ez, 1e-9), ("tangent", ec, 1e-9)):
+            j = int(np.argmax(e))
+            if e[j] > tol:
+                v.append(viol("law_changed", f"{nm} of a step integrated by a behaviour whose elastic law was changed after construction (E x 1.6, v 0.3 -> 0.2) differs by {e[j]:.3e} "
+                                             f"from a behaviour constructed with the new law [path {'>'.join(names[gi[j]])}; depth {depth}; solver {solver}]", quantity=nm, solver=solver, **cfg_key(cfg)))
+        if v:
+            break
+        rows = np.round(np.hstack([eps[gi] / EPS_Y, zB[gi] / EPS_Y]), 7) + 0.0
+        _, first_idx = np.unique(rows, axis=0, return_index=True)
+        keep = np.sort(first_idx)
+        f_eps, f_z, f_names = eps[gi][keep], zB[gi][keep], [names[gi[i]] for i in keep]
+    return {"violations": _dedupe(v), "fingerprint": fp("relaw", cfg, solver, *obs), "nontrivial": flowed or not lay.n, "transitions": ntr, "outcome": "ok" if not v else "violation"}
+
+
 def run_case(case):
+    if case["kind"] == "relaw":
+        import warnings
+
+        with warnings.catch_warnings(), np.errstate(all="ignore"):
+            warnings.simplefilter("ignore", RuntimeWarning)
+            return run_relaw(case)
     if case["kind"] == "units":
         return run_units(case)
     if case["kind"] == "psi":
@@ -1213,6 +1275,7 @@ def describe(tier, seed):
             "tolerances: f <= 1e-8 sigma_y; dp >= -1e-15; |tr eps_p| <= 1e-10 eps_y; dissipation >= -1e-12 sigma_y; tangent 2e-6 |C d|; solvers 1e-8; no internal variables 1e-13; plane stress: documented max(1e-8*max(sigma_y,1), 10*1e-10*C_zz)",
             "rate-dependent behaviours: instead of f <= 0 the documented overstress relation f = phi^-1(dp/dt) is demanded of flowing points",
             "simulation level: two Solves 'agree' = displacement within 1e-6 (relative) of the same Solve on a fresh simulation brought to the same committed state by Solve/Save_Iter",
+            "kind relaw: the elastic law held by a live, already used behaviour is changed through its public setters (E x 1.6, nu 0.3 -> 0.2); all letter paths of depth 2, both local solvers, must equal (1e-9) those of a behaviour constructed with the new law",
         ],
         "explanation": "VERIF_SEED only picks the generic direction of the directional tangent check.",
     }
